@@ -50,6 +50,19 @@ CHECKS = {
             'stored series compared with the reference in every state; research.backtest spacing validation over a menu of leading gaps.',
             'Candle values never influence control flow, states are merged on timestamps and capacity. For an unknown older timestamp only ordering and integrity of the other candles are demanded.',
             'DESIGN.md 3/C20'),
+    'C02': ('session', 'exhaustive enumeration of whole research.backtest sessions (all candle words over a shape alphabet x program menu x spot/futures x normal/fast) with a trace oracle',
+            'Every candle word (gaps, flats, wicks exactly on order prices) after a flat lead-in, for each of 7 scripted programs (limit/stop/market/multi-leg entries, exit ladders, break-even moves, '
+            'kept/cancelled entries), spot and futures, normal and fast simulator, runs through the real research.backtest under harness monitors; from the trace alone every resting fill is checked '
+            'against the normalised range of its minute and its submission time, every order that survives a matching phase (minute / fast-mode chunk) against that phase\'s range, every market order against '
+            'same-step execution at the current price, and every fill against its position-size effect; the C05 life-cycle clauses are evaluated on every order too.',
+            'Bound: word length 4 over 6 shapes (quick) / 5 over 8 shapes (thorough), one symbol, 1m normal and 3m fast chunks. Orders created while a minute is matched are exempt in that minute (C08).',
+            'DESIGN.md 3/C02'),
+    'C08': ('session', 'complete enumeration of split_candle inputs on a 5-level lattice + exhaustive probe-minute sessions (all O/H/L/C/previous-close arrangements x exit-order placements x reaction policies) with a path-walk oracle',
+            'split_candle is called on every valid lattice candle and every lattice/half-step price inside it and the two parts checked for validity, kept extremes and meeting point; a probe minute with every '
+            'arrangement of open/high/low/close around the previous close is run through the real simulator with 1-3 exit orders on lattice and half-step prices (ties, prices on O/H/L/C), long and short, '
+            'with reaction policies that move or place orders after a partial fill; the observed sequence of Order.execute calls in the minute must be a monotone walk along the path, reaction orders '
+            'only after their creation point, and nothing the path reached earlier may still be waiting when a later order fills.',
+            'Normal simulator only (the property is stated for it). 225 probe candles, up to 66 programs, both sides; ties may fill in any order.', 'DESIGN.md 3/C08'),
 }
 
 NOT_APPLICABLE = {}
